@@ -93,6 +93,34 @@ DESC = {
  "C20b-m1": ("`GcWeak::upgrade` accepts a `Mutation` of any brand", "nested `mutate` on two arenas: upgrade arena A's weak pointer with arena B's context"),
  "C20b-m2": ("`unsize!` impl for `Gc` gets a free output lifetime", "nested callbacks: re-brand a pointer through `unsize!` and store it in the other arena"),
  "C20b-m3": ("root-set identity = address of the set's own allocation", "arena dropped, a new set in another arena lands on the same address, stale handle presented"),
+ "C01c-m1": ("`stash` uses `forward_barrier(Some(root), set)` instead of the backward barrier", "set black while marking, fresh white value stashed"),
+ "C01c-m2": ("`VecDeque` traces only its first slice", "a wrapped deque reachable from the root (container impl: decided by C16)"),
+ "C01c-m3": ("`root_barrier` skipped while gray objects are queued", "marking stopped after the root was traced with a non-empty queue, then `mutate_root` stores a fresh object"),
+ "C03c-m1": ("`finalize` calls `collect_debt()` after the callback", "callback leaves gray work (resurrect / barrier), arena still in debt, another dead value exists"),
+ "C03c-m2": ("backward barrier frees the parent's dead list successor while Sweeping", "Sweeping, barrier on a still-black object ahead of the cursor whose list successor is white garbage"),
+ "C04c-m1": ("objects allocated during a sweep live on a side list that teardown forgets", "enter Sweeping, allocate, drop the arena before the sweep finishes"),
+ "C04c-m2": ("a failing `try_new` leaks the whole context (`Box::into_raw`)", "`Arena::try_new` whose constructor allocates and returns `Err`"),
+ "C04c-m3": ("`Copy` bound of `copy_slice` moved from the element to the header type", "`copy_slice` of elements with destructors: destructed twice"),
+ "C06c-m1": ("`root_barrier` only when nothing is gray", "see C01c-m3"),
+ "C06c-m2": ("traceable objects allocated while marking are created black", "a fresh object that holds a pointer from construction, adopted by a black parent"),
+ "C06c-m3": ("`gray_remaining()` ignores `gray_again`", "backward barrier while Marked, then zero-debt `mark_debt`"),
+ "C11c-m1": ("the trace-panic guard truncates the gray queue to its length before the trace", "a `trace` that panics after tracing a white child that itself needs tracing"),
+ "C11c-m2": ("`map_root` / `try_map_root` hold the context as a raw pointer across the callback", "a panic inside the `map_root` callback: the whole heap leaks"),
+ "C12c-m1": ("`contains` accepts handles whose own set is gone (`is_none_or`)", "a handle that outlived its set, presented to another set"),
+ "C12c-m2": ("derive: field-level `require_static` predicates only without `bound = …`", "`Cell<Option<&'gc T>>` in an untraced root field"),
+ "C12c-m3": ("`HashMap` / `HashSet` bound `S: 'static` weakened", "a hasher borrowing from a GC object inside a rooted map"),
+ "C13c-m1": ("`Rc<T>: DerefWrite` loses `T: 'static` again", "a white co-owner of an `Rc<RefLock<..>>` shared with a black object"),
+ "C13c-m2": ("`field!` expands its argument inside the macro's own `unsafe` block", "`field!(Write::assume(x), T, f)` in a crate that forbids unsafe code"),
+ "C13c-m3": ("`backward_barrier` ignores a `WhiteWeak` child", "upgrade then `stash` while marking"),
+ "C15c-m1": ("stale indices when removing `require_static` bindings", "two or more `require_static` fields followed by a pointer field"),
+ "C15c-m2": ("duplicate-mode check only rejects the *same* mode twice", "`#[collect(no_drop, unsafe_drop)]`"),
+ "C15c-m3": ("empty variants pruned before the variant-attribute check", "`#[collect(require_static)]` on a unit variant"),
+ "C16c-m1": ("`BTreeMap` traces keys or values, never both", "`BTreeMap<Gc, Gc>`"),
+ "C16c-m2": ("new `Collect` impls for `rc::Weak<T>` / `sync::Weak<T>` with `NEEDS_TRACE = false`", "`rc::Weak<Gc<..>>` in the root"),
+ "C16c-m3": ("`RefLock::trace` silently skips a mutably borrowed lock", "a leaked `RefMut` at trace time"),
+ "C19c-m1": ("inner `copy_slice` loses its `E: Copy` bound", "bitwise duplication of non-`Copy` elements from safe code"),
+ "C19c-m2": ("`ptr_eq` compares wide-pointer metadata too", "two cached zero-sized values unsized to the same trait-object type"),
+ "C19c-m3": ("`stash` passes the barrier arguments swapped", "upgrade -> stash while marking"),
 }
 
 verdicts = json.load(open(sys.argv[1])) if len(sys.argv) > 1 and os.path.exists(sys.argv[1]) else {}
